@@ -1,5 +1,6 @@
 // C18 harness: the real ordering primitive on the cases of stdin.
 //   argsort <rule> <n> v1 .. vn             -> idx i0 .. | throw <type>
+//   argsortk <rule> <n> <k> v1 .. vn        -> idx i0 .. | throw <type>   (prefix overload)
 //   csort <rule> <n> re1 im1 .. ren imn     -> idx i0 .. | throw <type>      (SortEigenvalue<complex<double>, rule>)
 //   solver <class> <selection> <sorting>    -> ok | throw <type>              (rule dispatch of the solvers)
 #include <Eigen/Core>
@@ -107,6 +108,17 @@ int main()
                 for (auto i : ind) o << ' ' << i;
                 res = o.str();
             }
+            else if (t[0] == "argsortk")
+            {
+                // argsortk <rule> <n> <k> v1 .. vn : the three-argument overload on the first k of n values
+                int rule = std::stoi(t[1]), n = std::stoi(t[2]), k = std::stoi(t[3]);
+                Eigen::VectorXd v(n);
+                for (int i = 0; i < n; i++) v[i] = std::stod(t[4 + i]);
+                std::vector<Eigen::Index> ind = argsort((SortRule) rule, v, (Eigen::Index) k);
+                std::ostringstream o; o << "idx";
+                for (auto i : ind) o << ' ' << i;
+                res = o.str();
+            }
             else if (t[0] == "csort")
             {
                 int rule = std::stoi(t[1]), n = std::stoi(t[2]);
@@ -127,7 +139,7 @@ int main()
             else res = "ERROR unknown-case";
         }
         catch (const std::exception& e) { res = what(e); }
-        std::cout << res << "\n";
+        std::cout << res << std::endl;   // flushed: the line the process dies on is then known
     }
     return 0;
 }
